@@ -15,6 +15,7 @@ pub mod c10;
 pub mod c13;
 pub mod c14;
 pub mod c18;
+pub mod c19;
 
 #[derive(Clone, Debug)]
 pub struct Ctx {
@@ -67,6 +68,7 @@ pub async fn dispatch(prop: &str, ctx: &Ctx, rep: &mut Report) -> bool {
         "C13" => c13::run(ctx, rep).await,
         "C14" => c14::run(ctx, rep).await,
         "C18" => c18::run(ctx, rep).await,
+        "C19" => c19::run(ctx, rep).await,
         _ => return false,
     }
     true
